@@ -90,7 +90,7 @@ def run_names(ctx) -> RuleResult:
         "names parameter); omitting it silently renames the indeterminates to q0, q1, ...",
     )
     n = 0
-    for module, qual, func in ctx.repo.all_functions():
+    for module, qual, func in ctx.repo.analysed_functions():
         if module.is_pyx:
             continue
         text = ast.unparse(func)
@@ -275,7 +275,7 @@ def run_dtype(ctx) -> RuleResult:
         "parameter let it reach every polynomial they return",
     )
     n = 0
-    for module, qual, func in ctx.repo.all_functions():
+    for module, qual, func in ctx.repo.analysed_functions():
         if module.is_pyx or "dtype" not in ast.unparse(func):
             continue
         seen = set()
@@ -416,7 +416,7 @@ def run_pair(ctx) -> RuleResult:
         "exponent sequence itself",
     )
     n = 0
-    for module, qual, func in ctx.repo.all_functions():
+    for module, qual, func in ctx.repo.analysed_functions():
         if module.is_pyx:
             continue
         seen = set()
@@ -527,7 +527,7 @@ def run_colidx(ctx) -> RuleResult:
         "of the same polynomial X",
     )
     n = 0
-    for module, qual, func in ctx.repo.all_functions():
+    for module, qual, func in ctx.repo.analysed_functions():
         if module.is_pyx or ".names.index(" not in ast.unparse(func):
             continue
         seen = set()
@@ -587,7 +587,7 @@ def run_expdtype(ctx) -> RuleResult:
         "their own, never with the coefficient dtype of a polynomial",
     )
     n = 0
-    for module, qual, func in ctx.repo.all_functions():
+    for module, qual, func in ctx.repo.analysed_functions():
         if module.is_pyx or "exponents" not in ast.unparse(func):
             continue
         seen = set()
